@@ -67,6 +67,15 @@ int sim_yield(void)
     return 0;
 }
 
+void probe_dyn(const char *name)
+{
+    int i;
+    for (i = 0; i < nprobe; i++) if (strcmp(g_probe_name[i], name) == 0) { g_probe[i]++; return; }
+    if (nprobe >= MAXPROBE) return;
+    g_probe_name[nprobe] = strdup(name);
+    g_probe[nprobe++] = 1;
+}
+
 /* ----------------------------------------------------- abstract state set */
 
 static uint64_t *sset;
